@@ -336,6 +336,9 @@ func main() {
 	// names and groups that contain a space (legal: any non-empty string), in In and Out struct tags
 	sp(&ctor{name: "InSp_K0", inStyle: true, deps: []dep{{target: "K1", form: "FKeyed", key: "a b"}, {target: "K2", form: "FGroup", group: "g h"}}, outs: simpleOut("K0"), hasErr: true})
 	sp(&ctor{name: "OutSp_K1K2", resultObj: true, outs: []out{{typ: "K1", key: "a b"}, {typ: "K2", group: "g h"}}})
+	// one parameter object consuming two groups of ONE element type, and a single service next to a group of its type
+	sp(&ctor{name: "InGG_K0", inStyle: true, deps: []dep{{target: "K1", form: "FGroup", group: "g"}, {target: "K1", form: "FGroup", group: "h"}}, outs: simpleOut("K0"), hasErr: true})
+	sp(&ctor{name: "InSG_K0", inStyle: true, deps: []dep{mkDep("K1", "FPlain"), {target: "K1", form: "FGroup", group: "g"}}, outs: simpleOut("K0")})
 	writeTypes()
 	writeCtors()
 }
